@@ -329,7 +329,58 @@ def D18():
         return '129 configured SOP classes: presentation context id %d' % mx
 
 
-ALL = ['D%d' % i for i in range(1, 19)]
+def D19():
+    # the message object is changed after send() but before the provider thread consumes the fragments
+    m = dm.CFindRSPMessage(); m.message_id_being_responded_to = 1; m.sop_class_uid = '1.2'
+    m.status = 0xFF00; m.data_set = b'\x08\x00\x05\x00\x02\x00\x00\x00AA'
+    m.set_length()
+    gen = m.encode(1, 16384)              # what Association.send hands to the provider thread
+    m.status = 0x0000; m.data_set = None  # the service goes on to build its next response
+    pdus = list(gen)
+    cmd = b''.join(p.data_value_items[0].data_value[1:] for p in pdus if p.data_value_items[0].data_value[0] in (1, 3))
+    st = dsutils.decode(cmd, True, True)[(0, 0x900)].value
+    ndata = len([p for p in pdus if p.data_value_items[0].data_value[0] in (0, 2)])
+    if st != 0xFF00 or ndata != 1:
+        return ('message sent with status FF00 and a data set, then changed before the provider consumed it: '
+                'wire carries status %#06x and %d data fragment(s)' % (st, ndata))
+
+
+def D20():
+    # the peer is gone; the provider finds out when a send fails
+    p, sock = _established('acc')
+    def boom(b): raise OSError(32, 'Broken pipe')
+    sock.sendall = boom
+    m = dm.CEchoRSPMessage(); m.message_id_being_responded_to = 1; m.sop_class_uid = '1.2.840.10008.1.1'; m.status = 0
+    m.set_length()
+    p.send(m.encode(1, 16384))
+    e = None
+    for _ in range(4):
+        e = p.step()
+        if e: break
+    if e or p.state != 1 or not sock.closed:
+        return 'send fails (EPIPE) in Sta6: exc %r escapes run(), state Sta%d, socket closed=%s' % (e, p.state, sock.closed)
+
+
+def D21():
+    # the peer disconnects while a multi-fragment message is being sent
+    p, sock = _established('acc')
+    m = dm.CStoreRQMessage(); m.message_id = 1; m.sop_class_uid = '1.2.3'; m.affected_sop_instance_uid = '1.2.3.4'
+    m.priority = 0; m.data_set = b'x' * 300
+    m.set_length()
+    p.send(m.encode(1, 64))
+    e = p.step()                    # first fragment goes out
+    sock.feed('EOF')
+    seen = []
+    for _ in range(5):
+        e = p.step()
+        seen += p.drain_user()
+        if e: break
+    if e or len(seen) != 1 or p.state != 1:
+        return ('peer closes after the first of several fragments: exc %r escapes run(), user indications %r, state Sta%d'
+                % (e, [getattr(x, 'source', x) for x in seen], p.state))
+
+
+ALL = ['D%d' % i for i in range(1, 22)]
 
 if __name__ == '__main__':
     sel = sys.argv[1:] or ALL
